@@ -18,3 +18,122 @@ pub(crate) fn dependence(p: usize, v: [u16; MAX_THREADS]) {
     assert!(a.path_id() == p && vv_raw(a.version()) == v);
     std::mem::forget(s);
 }
+
+// ------------------------------------------------------------ C07: one-step simulation
+
+use crate::rt::execution::verif as ev;
+use crate::rt::object::verif as ov;
+use crate::rt::scheduler::verif as sched;
+use crate::rt::synchronize::verif as sv;
+use crate::rt::thread::verif as tv;
+
+type Raw = [u16; MAX_THREADS];
+
+fn eq(a: &Raw, b: &Raw) -> bool {
+    le(a, b) && le(b, a)
+}
+
+/// lock states of the reference machine: 0 free, 1 write-held by `w`, 2 read-held by the set `readers`
+fn mk_lock(mode: u8, w: usize, readers: [bool; 3]) -> Option<Locked> {
+    match mode {
+        0 => None,
+        1 => Some(Locked::Write(tv::tid(w))),
+        _ => {
+            let mut s: HashSet<thread::Id> = HashSet::new();
+            let mut t = 0;
+            while t < 3 {
+                if readers[t] {
+                    s.insert(tv::tid(t));
+                }
+                t += 1;
+            }
+            Some(Locked::Read(s))
+        }
+    }
+}
+
+/// World: 3 threads, one rwlock (object 0).  Non-acting threads that do not
+/// hold the lock are symbolic: role 0 unrelated runnable, 1 blocked elsewhere,
+/// 2 pending read, 3 pending write; pending threads are Blocked iff their
+/// request is incompatible with the current lock state (coupling relation).
+fn world(acting: usize, mode: u8, w: usize, readers: [bool; 3]) -> (crate::rt::Execution, RwLock, [u8; 3], [u8; 3], Raw) {
+    let mut e = ev::mk_exec(3, 1, None);
+    tv::activate(&mut e.threads, acting);
+    let sync: Raw = kani::any();
+    let st = State { lock: mk_lock(mode, w, readers), last_access: None, synchronize: sv::mk(sync) };
+    let r = e.objects.insert(st);
+    let mut roles = [0u8; 3];
+    let mut codes = [0u8; 3];
+    let mut t = 0;
+    while t < 3 {
+        let c: Raw = kani::any();
+        tv::th(&mut e.threads, t).causality = vv(c);
+        let holds = (mode == 1 && w == t) || (mode == 2 && readers[t]);
+        if t != acting && !holds {
+            let role: u8 = kani::any();
+            kani::assume(role <= 3);
+            roles[t] = role;
+            let (code, opn) = match role {
+                0 => (0, None),
+                1 => (2, None),
+                2 => (if mode == 1 { 2 } else { 0 }, Some(ov::op(0, crate::rt::object::Action::RwLock(Action::Read)))),
+                _ => (if mode != 0 { 2 } else { 0 }, Some(ov::op(0, crate::rt::object::Action::RwLock(Action::Write)))),
+            };
+            codes[t] = code;
+            tv::th(&mut e.threads, t).state = tv::state_from_code(code);
+            tv::th(&mut e.threads, t).operation = opn;
+        }
+        t += 1;
+    }
+    (e, RwLock { state: r }, roles, codes, sync)
+}
+
+fn code_of(e: &crate::rt::Execution, t: usize) -> u8 {
+    tv::state_code(&tv::th_ref(&e.threads, t).state)
+}
+
+fn clock(e: &crate::rt::Execution, t: usize) -> Raw {
+    vv_raw(&tv::th_ref(&e.threads, t).causality)
+}
+
+fn sync_of(e: &crate::rt::Execution, l: &RwLock) -> Raw {
+    sv::raw(&l.state.get(&e.objects).synchronize)
+}
+
+vharness! {
+    /// @prop C07 @tier quick @mode fast @cost 3 @timeout 3600 @funcs RwLock::release_read_lock,RwLock::unlock_threads,Synchronize::sync_store @bounds 3 threads; read-held by the acting thread 1 and possibly thread 0 (symbolic); thread 2 symbolic (unrelated / blocked elsewhere / pending read / pending write); all clock values
+    /// read-unlock: the reader leaves the reader set and publishes its view into the lock whether or not other readers remain; when it was the last reader the lock becomes free and every thread queued on the lock is runnable again; otherwise nobody is woken.
+    #[cfg_attr(kani, kani::unwind(8))]
+    fn rwlock_read_unlock_t1() {
+        let acting = 1;
+        let other_reader: bool = kani::any();
+        let (mut e, l, roles, codes, sync0) = world(acting, 2, 0, [other_reader, true, false]);
+        let cur = clock(&e, acting);
+        let c2 = clock(&e, 2);
+        sched::enter(&mut e, || l.release_read_lock());
+        // hand-over: everything the reader did is released into the lock
+        assert!(eq(&sync_of(&e, &l), &max_raw(&sync0, &cur)));
+        let st = l.state.get(&e.objects);
+        if other_reader {
+            match &st.lock {
+                Some(Locked::Read(s)) => assert!(s.len() == 1 && s.contains(&tv::tid(0))),
+                _ => assert!(false),
+            }
+            assert!(code_of(&e, 2) == codes[2]);
+        } else {
+            assert!(st.lock.is_none());
+            // pending writers (blocked by the readers) can run again
+            if roles[2] >= 2 {
+                assert!(code_of(&e, 2) == 0);
+            } else {
+                assert!(code_of(&e, 2) == codes[2]);
+            }
+        }
+        assert!(eq(&clock(&e, acting), &cur));
+        assert!(eq(&clock(&e, 2), &c2));
+        assert!(sched::switches() == 0);
+        kani::cover!(other_reader && !le(&cur, &sync0), "a non-last reader publishes something");
+        kani::cover!(!other_reader && roles[2] == 3, "last reader wakes a pending writer");
+        std::mem::forget(e);
+    }
+}
